@@ -18,7 +18,9 @@ def fnv(b):
 def random_tree(rng, flav, depth=0):
     t = {}
     bs = 512 if flav & 1 else 488
-    names = [b"a", b"Readme.txt", b"\xe9t\xe9", b"UPPER", b"lower", b"thirty characters name 01234567", b"x.y", b"data.bin", b"\xc4\xd6\xdc", b"f 1"]
+    names = [b"a", b"Readme.txt", b"\xe9t\xe9", b"UPPER", b"lower", b"thirty characters name 01234567", b"x.y", b"data.bin", b"\xc4\xd6\xdc", b"f 1",
+             # Latin-1 bytes at the edges of the international upper-casing: 0xE0 / 0xFE fold, 0xF7 (division sign) and 0xFF do not, 0xDF / 0xD7 stay
+             b"\xffile", b"\xe0\xfe", b"\xf7\xd7", b"\xdf\xde`{", b"z\xff\xf7"]
     rng.shuffle(names)
     for nm in names[: rng.randint(2, 7)]:
         nm = nm[:30]
@@ -197,7 +199,8 @@ def check_image(ctx, img_path, n, flav, known=None, label="mkimage", meta=None):
 def run(ctx):
     proof = common.proof_status(ctx)
     rng = ctx.rng
-    n_img = 24 if ctx.tier == "quick" else 1500
+    n_img = 72 if ctx.tier == "quick" else 1500
+    jobs = []
     for i in range(n_img):
         flav = rng.choice(gen.FLAVOURS)
         n = rng.choice([1760, 1760, 3520, 4200])
@@ -211,11 +214,17 @@ def run(ctx):
         path = os.path.join(ctx.work, "c06_%d.img" % i)
         with open(path, "wb") as f:
             f.write(data)
-        check_image(ctx, path, n, flav, known=flatten(tree), label="mkimage", meta={"flavour": flav, "blocks": n, "policy": pol, "entries": len(flatten(tree))})
-        os.unlink(path)
+        jobs.append((path, n, flav, flatten(tree), {"flavour": flav, "blocks": n, "policy": pol, "entries": len(flatten(tree))}))
         if len(ctx.samples) < 2:
             ctx.sample({"flavour": flav, "blocks": n, "policy": pol, "names": [hexs(k) for k in tree]})
-        if len(ctx.failures) > 5:
+
+    def one(j):
+        path, n, flav, known, meta = j
+        check_image(ctx, path, n, flav, known=known, label="mkimage", meta=meta)
+        os.unlink(path)
+        return len(ctx.failures)
+    for nf in common.pmap(one, jobs):
+        if nf > 5:
             break
     for f in sorted(glob.glob(os.path.join(common.REPO, "regtests", "Dumps", "*.adf"))):
         n = os.path.getsize(f) // 512
